@@ -65,7 +65,7 @@ fn hist_json(lists: &[Vec<Det>], h: &[Call]) -> serde_json::Value {
 pub fn run_c04(tier: Tier) -> Report {
     let rep = Report::new("C04", tier);
     let ls = Arc::new(tie_free_lists());
-    rep.set_rule("every history of depth <= D (quick 4, thorough 5) over predict(scene in {0,1,2}, one of 7 tie-free detection lists occupying the same image region in every scene), on Sort / VisualSort / BatchSort / BatchVisualSort x IoU / Mahalanobis; differential oracle: for every scene the records of the interleaved run equal those of a fresh tracker fed only that scene's calls (boxes, epochs, lengths, voting type bit for bit, ids up to an incrementally built bijection), and no record carries an id first issued in another scene. Non-trivial = history touching at least two scenes.");
+    rep.set_rule("every history of depth <= D (quick 4, thorough 5) over predict(scene in {0,1,2}, one of 7 tie-free detection lists occupying the same image region in every scene), on Sort / VisualSort / BatchSort / BatchVisualSort x IoU / Mahalanobis; differential oracle: for every scene the records of the interleaved run equal those of a fresh tracker fed only that scene's calls (boxes, epochs, lengths, voting type bit for bit, ids up to an incrementally built bijection), and no record carries an id first issued in another scene. For the batch trackers additionally every history of depth <= 2 (3 thorough) over single-scene and TWO-SCENE batches (5 lists incl. mutual occlusion and a jump beyond positional reach) with own-area thresholds on / off: every scene of a shared batch must equal the run of a fresh tracker fed that scene alone. Non-trivial = history touching at least two scenes.");
     rep.assume("tie-free inputs (no exact duplicates): both runs perform the same arithmetic per scene if isolation holds; sequential use under the default schedule");
     let depth = tier.pick(4usize, 5usize);
     let nl = ls.len();
@@ -156,6 +156,7 @@ pub fn run_c04(tier: Tier) -> Report {
     }
     rep.add(total, total * 2, total * 2, 0);
     rep.distinct_count(nontrivial);
+    run_multi_scene_batches(&rep, tier);
     rep.sample(json!({"history":[[0,2],[1,2],[0,1],[1,5]],"meaning":"(scene, list index); scene 0 and 1 see the same boxes"}));
     rep
 }
@@ -223,4 +224,116 @@ pub fn run_c05_configs(rep: &Report, tier: Tier) {
         }
     }
     rep.extra("shard_count_differential_runs", json!(total));
+}
+
+/// Batch trackers: several scenes submitted in ONE batch. Every scene's records must equal those of a
+/// fresh tracker of the same kind that is fed only that scene (single-scene batches).
+pub fn run_multi_scene_batches(rep: &Report, tier: Tier) {
+    let (a, a1, b) = (fa(), fa1(), fb());
+    let ls: Arc<Vec<Vec<Det>>> = Arc::new(vec![
+        vec![p().feat(&a, 0.9)],
+        vec![p().feat(&a, 0.9), p().shift(2.0, 0.0).feat(&b, 0.9)], // mutual occlusion: low own-area shares
+        // (0.5, 1.0) and not (1, 1): the latter is equidistant from the two boxes of the previous list - an exact tie
+        vec![q().feat(&b, 0.9), p().shift(0.5, 1.0).feat(&a1, 0.9)],
+        vec![p().shift(30.0, 0.0).feat(&a, 0.9)],                   // moved beyond positional reach: only the feature vote re-attaches
+        vec![p().shift(0.25, 0.5).feat(&a1, 0.9)],
+    ]);
+    let nl = ls.len();
+    // ops: single-scene batches and two-scene batches
+    let mut ops: Vec<Vec<Call>> = vec![];
+    for s in [0u64, 1] {
+        for l in 0..nl {
+            ops.push(vec![(s, l)]);
+        }
+    }
+    for l0 in 0..nl {
+        for l1 in 0..nl {
+            ops.push(vec![(0, l0), (1, l1)]);
+        }
+    }
+    let ops = Arc::new(ops);
+    let depth = tier.pick(2usize, 3usize);
+    let mut cfgs = vec![];
+    for (kind, own) in [(Kind::BatchVisualSort, (0.5f32, 0.2f32)), (Kind::BatchVisualSort, (0.5, 0.0)), (Kind::BatchVisualSort, (0.0, 0.0)), (Kind::BatchSort, (0.0, 0.0))] {
+        for vshards in [1usize, 2] {
+            let mut c = TrkCfg::new(kind);
+            c.max_idle = 2;
+            c.shards = 1;
+            c.voting_shards = vshards;
+            c.vis.min_track_len = 1;
+            c.vis.own_use = own.0;
+            c.vis.own_collect = own.1;
+            c.vis.q_use = 0.3;
+            c.vis.q_collect = 0.3;
+            cfgs.push(c);
+        }
+    }
+    let mut total = 0u64;
+    for cfg in cfgs {
+        if rep.out_of_time() {
+            rep.cap_hit("wall budget reached in the multi-scene batch part");
+            return;
+        }
+        let mut hs: Vec<Vec<usize>> = vec![];
+        for len in 1..=depth {
+            hs.extend(words(ops.len(), len).into_iter().filter(|w| w.iter().any(|o| ops[*o].len() > 1)));
+        }
+        let chunk = 16usize;
+        let nchunks = (hs.len() + chunk - 1) / chunk;
+        let hs = Arc::new(hs);
+        let (hs2, ls2, cfg2, ops2) = (hs.clone(), ls.clone(), cfg.clone(), ops.clone());
+        let outs = run_jobs(nchunks, move |ci| {
+            let mut viol: Vec<(Vec<Vec<Call>>, String, String)> = vec![];
+            let mut cache: BTreeMap<Vec<Call>, Vec<Vec<Rec>>> = BTreeMap::new();
+            for w in &hs2[ci * chunk..((ci + 1) * chunk).min(hs2.len())] {
+                let h: Vec<Vec<Call>> = w.iter().map(|o| ops2[*o].clone()).collect();
+                // the run with multi-scene batches
+                let mut t = Guarded::new(AnyTrk::new(&cfg2));
+                let mut per_scene: BTreeMap<u64, Vec<Vec<Rec>>> = BTreeMap::new();
+                let mut ok = true;
+                for op in &h {
+                    let batch: Vec<(u64, Vec<Det>)> = op.iter().map(|(s, l)| (*s, ls2[*l].clone())).collect();
+                    let res = t.predict_batch(&batch);
+                    if res.len() != op.len() {
+                        viol.push((h.clone(), "isolation/batch-result-count".into(), format!("{} results for {} scenes", res.len(), op.len())));
+                        ok = false;
+                        break;
+                    }
+                    for (s, recs) in res {
+                        per_scene.entry(s).or_default().push(recs);
+                    }
+                }
+                drop(t);
+                if !ok {
+                    continue;
+                }
+                for (s, inter) in &per_scene {
+                    let proj: Vec<Call> = h.iter().flat_map(|op| op.iter().filter(|c| c.0 == *s).cloned()).collect();
+                    let solo = cache.entry(proj.clone()).or_insert_with(|| transcript(&cfg2, &ls2, &proj)).clone();
+                    let (mut m, mut rm) = (BTreeMap::new(), BTreeMap::new());
+                    for (k, (x, y)) in inter.iter().zip(solo.iter()).enumerate() {
+                        if let Err(e) = same_records(x, y, &mut m, &mut rm, false) {
+                            viol.push((h.clone(), "isolation/scene-in-shared-batch-differs-from-solo-run".into(), format!("scene {s}, its call #{k}: {e}")));
+                            break;
+                        }
+                    }
+                }
+            }
+            viol
+        });
+        for o in outs {
+            match o {
+                Ok(v) => {
+                    for (h, key, what) in v {
+                        rep.violation(Violation { key, what, replay: json!({"part":"multi-scene batches","config":cfg.json(),"batches":h,"lists":ls.iter().map(|l| l.iter().map(|d| d.json()).collect::<Vec<_>>()).collect::<Vec<_>>()}) });
+                    }
+                }
+                Err(e) => rep.violation(Violation { key: format!("{}/panic-or-deadlock", cfg.kind.name()), what: e.chars().take(300).collect(), replay: json!({"part":"multi-scene batches","config":cfg.json()}) }),
+            }
+        }
+        total += hs.len() as u64;
+        rep.add(hs.len() as u64, hs.len() as u64 * 3, hs.len() as u64 * 3, 0);
+    }
+    rep.distinct_count(total);
+    rep.extra("multi_scene_batch_histories", json!(total));
 }
